@@ -12,18 +12,18 @@ section
 variable {κ β : Type} [DecidableEq κ]
 
 theorem countP_aset (f : κ × β → Bool) (k : κ) (v : β) (l : List (κ × β)) :
-    (aset k v l).countP f + (match alookup k l with | some o => if f (k, o) then 1 else 0 | none => 0) =
+    (aset k v l).countP f + (alookup k l).elim 0 (fun o => if f (k, o) then 1 else 0) =
       l.countP f + (if f (k, v) then 1 else 0) := by
   induction l with
   | nil => simp [aset]
   | cons e rest ih =>
     obtain ⟨k₀, v₀⟩ := e
     by_cases h0 : k₀ = k
-    · subst h0; simp only [aset, if_true, alookup, List.countP_cons]; omega
+    · subst h0; simp only [aset, if_true, alookup, List.countP_cons, Option.elim_some]; omega
     · simp only [aset, h0, if_false, alookup, List.countP_cons]; omega
 
 theorem countP_aerase (f : κ × β → Bool) (k : κ) {l : List (κ × β)} (hn : (l.map Prod.fst).Nodup) :
-    (aerase k l).countP f + (match alookup k l with | some o => if f (k, o) then 1 else 0 | none => 0) =
+    (aerase k l).countP f + (alookup k l).elim 0 (fun o => if f (k, o) then 1 else 0) =
       l.countP f := by
   induction l with
   | nil => simp [aerase]
@@ -32,7 +32,7 @@ theorem countP_aerase (f : κ × β → Bool) (k : κ) {l : List (κ × β)} (hn
     simp only [List.map_cons, List.nodup_cons] at hn
     by_cases h0 : k₀ = k
     · subst h0
-      simp only [aerase, if_true, alookup, List.countP_cons]
+      simp only [aerase, if_true, alookup, List.countP_cons, Option.elim_some]
       rw [aerase_of_not_mem hn.1]
     · simp only [aerase, h0, if_false, alookup, List.countP_cons]
       have := ih hn.2; omega
@@ -740,5 +740,221 @@ theorem Agree_closeSpace {s : NodeSt} (h : s.Agree) (space : String) : (s.closeS
   intro sid sp p hr hne
   obtain ⟨t, ht⟩ := h.trieHas sid sp p hr
   exact ⟨t, by simp only [alookup_aerase_ne hne]; exact ht⟩
+
+/-! ### stream close (`removeStream` + `onStreamClose`) -/
+
+/-- one iteration of `for spaceId, patterns := range strm.bySpace` in `onStreamClose` -/
+def stepClose (rem : List (String × Trie)) (e : String × List String) : List (String × Trie) :=
+  match alookup e.1 rem with
+  | none => rem
+  | some t => NodeSt.pruneSpace (aset e.1 (t.removeAll e.2) rem) e.1
+
+/-- what a trie becomes when the closing stream's patterns are withdrawn: gone if that empties it -/
+def afterClose (ps : List String) (t : Trie) : Option Trie :=
+  if (t.removeAll ps).size = 0 then none else some (t.removeAll ps)
+
+theorem alookup_stepClose (rem : List (String × Trie)) (e : String × List String) (sp : String) :
+    alookup sp (stepClose rem e) =
+      if sp = e.1 then (alookup sp rem).bind (afterClose e.2) else alookup sp rem := by
+  simp only [stepClose]
+  cases ht : alookup e.1 rem with
+  | none =>
+    by_cases h : sp = e.1
+    · subst h; simp [ht]
+    · simp [h]
+  | some t =>
+    simp only [alookup_pruneSpace, alookup_aset_same, Option.bind_some]
+    by_cases h : sp = e.1
+    · subst h; simp [ht, afterClose]
+    · simp [h, alookup_aset_ne h]
+
+theorem alookup_foldl_stepClose (bs : List (String × List String)) (hn : (bs.map Prod.fst).Nodup)
+    (rem : List (String × Trie)) (sp : String) :
+    alookup sp (bs.foldl stepClose rem) =
+      (alookup sp bs).elim (alookup sp rem) (fun ps => (alookup sp rem).bind (afterClose ps)) := by
+  induction bs generalizing rem with
+  | nil => simp
+  | cons e rest ih =>
+    obtain ⟨sp0, ps0⟩ := e
+    simp only [List.map_cons, List.nodup_cons] at hn
+    simp only [List.foldl_cons]
+    rw [ih hn.2]
+    by_cases h : sp0 = sp
+    · subst h
+      have : alookup sp0 rest = none := alookup_eq_none_iff.mpr hn.1
+      simp [this, alookup, alookup_stepClose]
+    · have h' : ¬ sp = sp0 := fun hh => h hh.symm
+      simp only [alookup, h, if_false, alookup_stepClose, h']
+
+theorem closeStream_unfold (s : NodeSt) (sid : Nat) :
+    s.closeStream sid =
+      match alookup sid s.streams with
+      | none => { s with pool := s.pool.filter (·.sid ≠ sid) }
+      | some r => { s with pool := s.pool.filter (·.sid ≠ sid),
+                           remote := r.bySpace.foldl stepClose s.remote,
+                           streams := aerase sid s.streams } := by
+  simp only [NodeSt.closeStream]
+  cases alookup sid s.streams <;> rfl
+
+theorem Agree_closeStream {s : NodeSt} (h : s.Agree) (sid : Nat) : (s.closeStream sid).Agree := by
+  rw [closeStream_unfold]
+  have hfilter : ∀ st, st ∈ s.pool.filter (·.sid ≠ sid) ↔ st ∈ s.pool ∧ st.sid ≠ sid := by
+    intro st; simp [List.mem_filter]
+  have hpn : ((s.pool.filter (·.sid ≠ sid)).map (·.sid)).Nodup :=
+    List.Nodup.sublist (List.Sublist.map _ List.filter_sublist) h.poolNodup
+  cases hl : alookup sid s.streams with
+  | none =>
+    simp only
+    exact {
+      poolNodup := hpn
+      streamsNodup := h.streamsNodup
+      recOK := h.recOK
+      trieReach := h.trieReach
+      trieCount := h.trieCount
+      trieLive := h.trieLive
+      trieHas := h.trieHas
+      validReg := h.validReg
+      tags := fun st hst tag => h.tags st ((hfilter st).mp hst).1 tag
+      inPool := fun sid' sp p hreg => by
+        obtain ⟨st, hst, hs⟩ := h.inPool sid' sp p hreg
+        refine ⟨st, (hfilter st).mpr ⟨hst, ?_⟩, hs⟩
+        intro heq
+        obtain ⟨r, hr, _⟩ := hreg
+        rw [← hs, heq, hl] at hr; cases hr }
+  | some r =>
+    simp only
+    have hr := h.recOK sid r hl
+    have hreg' : ∀ sid' sp p, (∃ r', alookup sid' (aerase sid s.streams) = some r' ∧ p ∈ r'.pats sp) ↔
+        (sid' ≠ sid ∧ s.Reg sid' sp p) := by
+      intro sid' sp p
+      simp only [alookup_aerase, NodeSt.Reg]
+      by_cases hs : sid' = sid
+      · simp [hs]
+      · simp [hs]
+    have hcnt : ∀ sp p, regCount (aerase sid s.streams) sp p + (if r.has sp p then 1 else 0) =
+        regCount s.streams sp p := by
+      intro sp p
+      have := countP_aerase (fun e : Nat × StreamRec => e.2.has sp p) sid h.streamsNodup
+      simpa [regCount, hl] using this
+    have hsn : ((aerase sid s.streams).map Prod.fst).Nodup := nodup_aerase h.streamsNodup
+    -- a trie of the new state: either untouched (the stream had nothing in that space) or the old
+    -- one minus the stream's patterns, and then not empty
+    have hremote : ∀ sp t', alookup sp (r.bySpace.foldl stepClose s.remote) = some t' →
+        ∃ t, alookup sp s.remote = some t ∧ t' = t.removeAll (r.pats sp) ∧ t'.size ≠ 0 := by
+      intro sp t' ht'
+      rw [alookup_foldl_stepClose _ hr.keys] at ht'
+      cases hb : alookup sp r.bySpace with
+      | none =>
+        simp only [hb, Option.elim_none] at ht'
+        exact ⟨t', ht', by simp [StreamRec.pats, hb, Trie.removeAll], h.trieLive sp t' ht'⟩
+      | some ps =>
+        simp only [hb, Option.elim_some] at ht'
+        cases ht : alookup sp s.remote with
+        | none => simp [ht] at ht'
+        | some t =>
+          simp only [ht, Option.bind_some, afterClose] at ht'
+          split at ht'
+          · cases ht'
+          · rename_i hz
+            cases ht'
+            exact ⟨t, rfl, by simp [StreamRec.pats, hb], by simpa [StreamRec.pats, hb] using hz⟩
+    exact {
+      poolNodup := hpn
+      streamsNodup := hsn
+      recOK := fun sid' r' hl' => by
+        simp only [alookup_aerase] at hl'
+        split at hl'
+        · cases hl'
+        · exact h.recOK sid' r' hl'
+      trieReach := fun sp t' ht' => by
+        obtain ⟨t, ht, rfl, _⟩ := hremote sp t' ht'
+        exact (h.trieReach sp t ht).removeAll _
+      trieCount := fun sp t' ht' p => by
+        obtain ⟨t, ht, rfl, _⟩ := hremote sp t' ht'
+        rw [Trie.count_removeAll, h.trieCount sp t ht p, (hr.toRecOK0.pats_nodup sp).count]
+        have := hcnt sp p
+        simp only [StreamRec.has, List.contains_eq_mem, decide_eq_true_eq] at this
+        split <;> simp_all <;> omega
+      trieLive := fun sp t' ht' => (hremote sp t' ht').choose_spec.2.2
+      trieHas := fun sid' sp p hreg => by
+        obtain ⟨hne, hreg0⟩ := (hreg' sid' sp p).mp hreg
+        obtain ⟨t, ht⟩ := h.trieHas sid' sp p hreg0
+        rw [alookup_foldl_stepClose _ hr.keys, ht]
+        cases hb : alookup sp r.bySpace with
+        | none => exact ⟨t, by simp⟩
+        | some ps =>
+          simp only [Option.elim_some, Option.bind_some, afterClose]
+          have hpos : regCount (aerase sid s.streams) sp p > 0 := by
+            rw [regCount_pos_iff hsn]
+            obtain ⟨r', hl', hp'⟩ := hreg
+            exact ⟨sid', r', hl', hp'⟩
+          have hps : ps = r.pats sp := by simp [StreamRec.pats, hb]
+          have hc : (t.removeAll ps).count p > 0 := by
+            rw [Trie.count_removeAll, h.trieCount sp t ht p, hps, (hr.toRecOK0.pats_nodup sp).count]
+            have := hcnt sp p
+            simp only [StreamRec.has, List.contains_eq_mem, decide_eq_true_eq] at this
+            split <;> simp_all <;> omega
+          split
+          · rename_i hz
+            have := (Trie.size_eq_zero_iff ((h.trieReach sp t ht).removeAll ps)).mp hz p
+            omega
+          · exact ⟨_, rfl⟩
+      tags := fun st hst tag => by
+        obtain ⟨hst0, hne⟩ := (hfilter st).mp hst
+        rw [h.tags st hst0 tag]
+        constructor
+        · rintro ⟨sp, p, hreg0, he⟩
+          exact ⟨sp, p, (hreg' st.sid sp p).mpr ⟨hne, hreg0⟩, he⟩
+        · rintro ⟨sp, p, hreg1, he⟩
+          exact ⟨sp, p, ((hreg' st.sid sp p).mp hreg1).2, he⟩
+      inPool := fun sid' sp p hreg => by
+        obtain ⟨hne, hreg0⟩ := (hreg' sid' sp p).mp hreg
+        obtain ⟨st, hst, hs⟩ := h.inPool sid' sp p hreg0
+        exact ⟨st, (hfilter st).mpr ⟨hst, by rw [hs]; exact hne⟩, hs⟩
+      validReg := fun sid' sp p hreg => h.validReg sid' sp p ((hreg' sid' sp p).mp hreg).2 }
+
+/-! ### `pruneStream` / `pruneSpace` after a map write -/
+
+theorem alookup_pruneStream_aset (l : List (Nat × StreamRec)) (sid sid' : Nat) (r1 : StreamRec) :
+    alookup sid' (NodeSt.pruneStream (aset sid r1 l) sid) =
+      if sid' = sid then (if r1.total = 0 then none else some r1) else alookup sid' l := by
+  simp only [NodeSt.pruneStream, alookup_aset_same]
+  by_cases hz : r1.total = 0
+  · simp only [hz, if_true, alookup_aerase]
+    by_cases h : sid' = sid
+    · simp [h]
+    · simp [h, alookup_aset_ne h]
+  · simp only [hz, if_false, alookup_aset]
+
+theorem nodup_pruneStream_aset {l : List (Nat × StreamRec)} (hn : (l.map Prod.fst).Nodup) (sid : Nat)
+    (r1 : StreamRec) : ((NodeSt.pruneStream (aset sid r1 l) sid).map Prod.fst).Nodup := by
+  simp only [NodeSt.pruneStream, alookup_aset_same]
+  split
+  · exact nodup_aerase (nodup_aset hn)
+  · exact nodup_aset hn
+
+theorem regCount_pruneStream_aset {l : List (Nat × StreamRec)} (hn : (l.map Prod.fst).Nodup) (sid : Nat)
+    (r1 : StreamRec) (h1 : RecOK0 r1) (sp p : String) :
+    regCount (NodeSt.pruneStream (aset sid r1 l) sid) sp p +
+        (alookup sid l).elim 0 (fun r0 => if r0.has sp p then 1 else 0) =
+      regCount l sp p + (if r1.has sp p then 1 else 0) := by
+  have ha := countP_aset (fun e : Nat × StreamRec => e.2.has sp p) sid r1 l
+  simp only [NodeSt.pruneStream, alookup_aset_same, regCount]
+  by_cases hz : r1.total = 0
+  · simp only [hz, if_true]
+    have he := countP_aerase (fun e : Nat × StreamRec => e.2.has sp p) sid (nodup_aset (k := sid) (v := r1) hn)
+    simp only [alookup_aset_same, Option.elim_some] at he
+    have : r1.has sp p = false := by simp [StreamRec.has, h1.pats_nil_of_total_zero hz sp]
+    simp only [this, Bool.false_eq_true, if_false] at ha he ⊢
+    omega
+  · simp only [hz, if_false]; exact ha
+
+theorem alookup_pruneSpace_aset (rem : List (String × Trie)) (space sp : String) (t1 : Trie) :
+    alookup sp (NodeSt.pruneSpace (aset space t1 rem) space) =
+      if sp = space then (if t1.size = 0 then none else some t1) else alookup sp rem := by
+  rw [alookup_pruneSpace]
+  by_cases h : sp = space
+  · simp [h, alookup_aset_same]
+  · simp [h, alookup_aset_ne h]
 
 end AnySync.PubSub
